@@ -207,8 +207,13 @@ def run(eng, R):
             accs = [n for n in ast.walk(loop) if isinstance(n, ast.AugAssign) and "cov_mat" in ast.unparse(n.value)]
             if not accs:
                 continue
-            for a in accs:
-                ok = _enabled_guarded(loop, a)
+            # decided on the canonical form: `if not e['enabled'] or <other>: continue`, nested ifs, a guard in a private helper are one thing there
+            cn = eng.cnode(f)
+            caccs = [n for lp in ast.walk(cn) if isinstance(lp, ast.For) and "_error_dicts" in ast.unparse(lp.iter) for n in ast.walk(lp) if isinstance(n, ast.AugAssign) and "cov_mat" in ast.unparse(n.value)]
+            if len(caccs) < len(accs):
+                raise AnalysisError("%s: accumulation over the error dictionaries not found in the canonical form" % f.qualname)
+            for a in caccs:
+                ok = _enabled_guarded_canonical(cn, a)
                 R.ob("D7", "%s:%s" % (f.qualname, norm_stmt(a)[:70]), ok, (f.file, a.lineno),
                      "%s adds the covariance of a source without testing its 'enabled' flag: a disabled source still contributes" % f.qualname)
 
@@ -396,6 +401,20 @@ def _dominated_by_stale_check(eng, ctx, f, g, sub, is_xy, depth):
         if not okc:
             return False, "caller %s unguarded" % cf.qualname
     return True, "stale check in all callers"
+
+
+def _enabled_guarded_canonical(fn, acc):
+    """some guard of the accumulation requires <entry>['enabled'] to be true (as a conjunct of a test that held, or a disjunct's negation of a test that failed)"""
+    from ..canon import negate, positive
+
+    for t, pol in common.guard_conditions(fn, acc):
+        t = positive(t) if pol else negate(positive(t))
+        for c in (t.values if isinstance(t, ast.BoolOp) and isinstance(t.op, ast.And) else [t]):
+            if isinstance(c, ast.Subscript) and common.const_str(c.slice) == "enabled":
+                return True
+            if isinstance(c, ast.Call) and isinstance(c.func, ast.Attribute) and c.func.attr == "get" and c.args and common.const_str(c.args[0]) == "enabled":
+                return True
+    return False
 
 
 def _enabled_guarded(loop, acc):
